@@ -60,6 +60,9 @@ fn main() {
             check::write_evidence(&out, t0.elapsed().as_secs_f64());
             std::process::exit(check::verdict(&out));
         }
+        "c14-hashes" => {
+            std::process::exit(props::c14::print_hashes(args[2].parse().unwrap()));
+        }
         "c06-worker" => {
             std::process::exit(props::c06::worker(&args[2]));
         }
